@@ -96,7 +96,8 @@ Judge(rec) ==
   IN (IF died THEN {"total"} ELSE {})
      \cup (IF ~died /\ ~(o.front.class = "ok" /\ o.ast = rec.e) THEN {"front"} ELSE {})
      \cup (IF ~died /\ o.infer.acc # run.acc THEN {"accept"} ELSE {})
-     \cup (IF ~died /\ run.acc /\ o.infer.acc /\ o.infer.ty # run.ty THEN {"type"} ELSE {})
+     \* (types that differ in the order of record fields only are the same type: C17)
+     \cup (IF ~died /\ run.acc /\ o.infer.acc /\ ~TypeEq(o.infer.ty, run.ty) THEN {"type"} ELSE {})
      \cup perB
      \cup (IF ~died /\ ~agree THEN {"agree"} ELSE {})
      \cup (IF ~died /\ ~agreeCT THEN {"agree_vmct"} ELSE {})
